@@ -78,21 +78,21 @@ Proof.
       * right. rewrite pset_same. auto.
       * left. apply pset_other. exact Hk.
     + left. rewrite pm_with_pm_other by exact Hm. reflexivity.
-  - left. destruct m; [reflexivity|rewrite pm_with_funds; reflexivity].
+  - left. destruct m; reflexivity.
 Qed.
 
 Lemma do_close_sf m s o i c m' : sf m' (do_close m s o i c) = sf m' s.
 Proof.
   destruct c; unfold do_close.
   - rewrite sf_with_funds, sf_with_pm. reflexivity.
-  - destruct m; [reflexivity|apply sf_with_funds].
+  - destruct m; reflexivity.
 Qed.
 
 Lemma do_close_funds m s o i c o' d' : o' <> o -> st_funds (do_close m s o i c) o' d' = st_funds s o' d'.
 Proof.
   intros H. destruct c; unfold do_close.
   - rewrite funds_with_funds. rewrite pay_all_other_owner by exact H. reflexivity.
-  - destruct m; [reflexivity|]. rewrite funds_with_funds. apply pay_all_other_owner. exact H.
+  - destruct m; reflexivity.
 Qed.
 
 Lemma forced_step_sf s x m : sf m (forced_step s x) = sf m s.
